@@ -6,7 +6,8 @@ Alphabet
   parameter kinds P = base type x form
      base: int, float, double, char, long, short, bool, unsigned int, long long, size_t, int2, float4, double2,
            myFloat (typedef float), S (struct {float a; int b;})          [quick: 10 of them]
-     form: T x | const T x | T *x | const T *x | T x[4]       + the typedef'd pointer  fptr x / const fptr x
+     form: T x | const T x | T *x | const T *x | T x[4]       + the typedef'd pointer  fptr x / const fptr x,
+           float x[] and int x[2][3] (thorough: T x[] and T x[2][3] for five bases)
   argument kinds A (29): occa::memory with dtype byte(untyped), bool, char, short, int, long, float, double, int2, int4,
      float2, float4, double2, struct{float,int}, tuple(float,4), tuple(float,2), tuple(int,4), custom("myType",8);
      scalars bool, char, short, int, long, float, double; nullptr; uninitialised occa::memory; raw host pointer;
@@ -54,7 +55,7 @@ FORMS = ["val", "cval", "ptr", "cptr", "arr"]
 
 MEM = {"byte": ["byte"], "bool": ["bool"], "char": ["char"], "short": ["short"], "int": ["int"], "long": ["long"],
        "float": ["float"], "double": ["double"], "int2": ["int"] * 2, "int4": ["int"] * 4, "float2": ["float"] * 2,
-       "float4": ["float"] * 4, "double2": ["double"] * 2, "S": ["float", "int"], "T4": ["float"] * 4, "T2": ["float"] * 2,
+       "float3": ["float"] * 3, "float4": ["float"] * 4, "double2": ["double"] * 2, "S": ["float", "int"], "T4": ["float"] * 4, "T2": ["float"] * 2,
        "I4": ["int"] * 4, "C": ["myType"]}
 ARGS = (["m:" + d for d in MEM] + ["s:bool", "s:char", "s:short", "s:int", "s:long", "s:float", "s:double", "n", "u", "p", "v:int2", "v:float4"])
 ARGS2 = ["m:float", "m:int", "m:double", "m:byte", "s:int", "n", "m:S", "v:float4"]
@@ -66,13 +67,14 @@ class Param:
         flat, decl, cls = BASES[base] if base != "fptr" else (["float"], "typedef float* fptr;\n", "typedef-pointer")
         self.decl = decl
         self.cls = cls
-        self.is_ptr = form in ("ptr", "cptr", "arr") or base == "fptr"
-        self.flat = flat * 4 if form == "arr" else flat
+        self.is_ptr = form in ("ptr", "cptr", "arr", "uarr", "arr2") or base == "fptr"
+        self.flat = flat * 4 if form == "arr" else flat * 6 if form == "arr2" else flat
 
     def text(self, name):
         b = self.base
         return {"val": "%s %s" % (b, name), "cval": "const %s %s" % (b, name), "ptr": "%s *%s" % (b, name),
-                "cptr": "const %s *%s" % (b, name), "arr": "%s %s[4]" % (b, name)}[self.form]
+                "cptr": "const %s *%s" % (b, name), "arr": "%s %s[4]" % (b, name), "uarr": "%s %s[]" % (b, name),
+                "arr2": "%s %s[2][3]" % (b, name)}[self.form]
 
     def key(self):
         return "%s/%s" % (self.base, self.form)
@@ -125,6 +127,10 @@ def decide(params, args):
 class Kernel:
     def __init__(self, idx, params, runs):
         self.idx, self.params, self.runs = idx, params, runs
+        self.salt = 0           # > 0: the file was rewritten (new name and content => new cache entry) after a timed-out build
+
+    def filename(self):
+        return "k%04d%s.okl" % (self.idx, "_r%d" % self.salt if self.salt else "")
 
     def source(self):
         decls = []
@@ -132,14 +138,14 @@ class Kernel:
             if p.decl and p.decl not in decls:
                 decls.append(p.decl)
         plist = ", ".join(p.text("p%d" % i) for i, p in enumerate(self.params))
-        return "".join(decls) + "@kernel void k(%s) {\n  for (int i = 0; i < 1; ++i; @tile(1, @outer, @inner)) { int q = i; }\n}\n" % plist
+        return ("// retry %d\n" % self.salt if self.salt else "") + "".join(decls) + "@kernel void k(%s) {\n  for (int i = 0; i < 1; ++i; @tile(1, @outer, @inner)) { int q = i; }\n}\n" % plist
 
     def describe(self):
         return "@kernel void k(%s)" % ", ".join(p.text("p%d" % i) for i, p in enumerate(self.params))
 
     def line(self, okldir, runs=None):
         runs = self.runs if runs is None else runs
-        return "%s\tk\t%s" % (os.path.join(okldir, "k%04d.okl" % self.idx), ";".join(",".join(r) for r in runs))
+        return "%s\tk\t%s" % (os.path.join(okldir, self.filename()), ";".join(",".join(r) for r in runs))
 
     def to_obj(self, run):
         return {"params": [[p.base, p.form] for p in self.params], "run": list(run)}
@@ -148,6 +154,10 @@ class Kernel:
 def gen_kernels(tier):
     bases = QUICK_BASES if tier == "quick" else list(BASES)
     P = [Param(b, f) for b in bases for f in FORMS] + [Param("fptr", "val"), Param("fptr", "cval")]
+    # arrays without a size and with two dimensions
+    P += [Param("float", "uarr"), Param("int", "arr2")]
+    if tier == "thorough":
+        P += [Param(b, f) for b in ("int", "double", "float4", "myFloat", "S") for f in ("uarr", "arr2") if (b, f) != ("int", "arr2")]
     kernels = []
 
     def add(params, runs):
@@ -196,10 +206,23 @@ def crash_kind(r):
     return r.crash.replace(":", "") if r.crash else "none"
 
 
-def run_pass(exe, kernels, okldir, env, workdir, mode, deadline, runs_override=None):
-    lines = [k.line(okldir, None if runs_override is None else runs_override[k.idx]) for k in kernels]
-    res, ok = run_items([exe], lines, workdir, env, chunk=3, per_item_timeout=40.0, extra_args=[mode], deadline=deadline)
-    return {kernels[r.index].idx: r for r in res}, ok
+def run_pass(exe, kernels, okldir, env, workdir, mode, deadline):
+    """One pass over the kernels.  A driver that hits the (generous) time limit is not a verdict on a loaded machine: such a
+    kernel is run once more on its own with a ten times larger limit (first pass: under a new file name, so that the build
+    is a fresh one again); only a second timeout is reported."""
+    lines = [k.line(okldir) for k in kernels]
+    res, ok = run_items([exe], lines, workdir, env, chunk=3, per_item_timeout=120.0, extra_args=[mode], deadline=deadline)
+    out = {kernels[r.index].idx: r for r in res}
+    again = [k for k in kernels if k.idx in out and out[k.idx].crash == "timeout"]
+    for k in again:
+        if mode == "fresh":
+            k.salt += 1
+            write_sources([k], okldir)
+    if again:
+        res2, _ = run_items([exe], [k.line(okldir) for k in again], workdir + "-retry", env, chunk=1, per_item_timeout=1200.0, extra_args=[mode])
+        for r in res2:
+            out[again[r.index].idx] = r
+    return out, ok
 
 
 def write_sources(kernels, okldir):
@@ -207,7 +230,7 @@ def write_sources(kernels, okldir):
     with open(os.path.join(okldir, "vec.h"), "w") as f:
         f.write(VEC_H)
     for k in kernels:
-        with open(os.path.join(okldir, "k%04d.okl" % k.idx), "w") as f:
+        with open(os.path.join(okldir, k.filename()), "w") as f:
             f.write(k.source())
 
 
@@ -224,7 +247,7 @@ def judge_kernel(c, k, rf, rc, stats, replay_of=None):
         c.harness_error("kernel %d fresh pass: %s" % (k.idx, f["harness"]))
     if rf.crash:
         viol("crash:build-or-run:%s:%s" % (crash_kind(rf), feature), "fresh process died (%s) after %d runs :: %s" % (rf.crash, len(f["dec"]), (rf.stderr or "")[:700]),
-             k.runs[len(f["dec"])] if len(f["dec"]) < len(k.runs) and f["path"] and f["meta"] else [])
+             k.runs[len(f["dec"])] if len(f["dec"]) < len(k.runs) else [])
         stats["crashes"] += 1
         return
     if f["buildexc"]:
@@ -263,7 +286,8 @@ def judge_kernel(c, k, rf, rc, stats, replay_of=None):
                     idxs = [int(d.rsplit(":", 1)[1]) - 1 for d in (got, cdec[ri]) if d.count(":") >= 2 and d.rsplit(":", 1)[1].isdigit()]
                     i = min(idxs) if idxs else 0
                     i = min(i, len(pc) - 1)
-                    cls = "%s:%s" % (pc[i].sigclass(), arg_class(run[i]))
+                    cls = "%s:%s" % (pc[i].form if pc[i].base != "fptr" else "typedef-pointer",
+                                     "memory" if run[i][0] in "mu" else "nullptr" if run[i] == "n" else "non-memory")
                 viol("fresh-cached-differ:%s" % (cls if pc else "no-parameters:" + cls),
                      "arguments (%s): just compiled -> %s, loaded from the cache -> %s" % (", ".join(run) or "none", got, cdec[ri]), run)
         # (b) the property's table
@@ -320,10 +344,12 @@ def main():
 
     kernels = gen_kernels(c.tier)
     write_sources(kernels, okldir)
-    deadline = time.time() + c.budget(80, 1100)     # measured from the end of the build + harness compile
+    # the budget limits how many kernels enter the first pass (from the end of the build + harness compile; the scale is for
+    # loaded machines); the second pass always covers every kernel the first pass built
+    deadline = time.time() + 0.55 * c.budget(80, 1100) * float(os.environ.get("VERIF_BUDGET_SCALE", "1"))
     fresh, ok1 = run_pass(exe, kernels, okldir, env, os.path.join(c.scratch, "pass1"), "fresh", deadline)
     built = [k for k in kernels if k.idx in fresh and not fresh[k.idx].crash and not parse_result(fresh[k.idx])["buildexc"]]
-    cached, ok2 = run_pass(exe, built, okldir, env, os.path.join(c.scratch, "pass2"), "cached", deadline)
+    cached, ok2 = run_pass(exe, built, okldir, env, os.path.join(c.scratch, "pass2"), "cached", None)
 
     stats = {"crashes": 0, "meta_diff": 0, "decisions": 0, "compared": 0, "undecided": 0, "outcomes": set()}
     judged = 0
